@@ -6,7 +6,10 @@ cd /repo || exit 2
 if ! git diff --quiet; then echo "/repo working tree is dirty"; exit 2; fi
 git apply "$patch" || { echo "patch does not apply"; exit 2; }
 cd /verif
+# evidence files describe runs against /repo itself: keep the one of the unchanged tree
+cp "evidence/$pid.json" "/tmp/evidence_$pid.keep" 2>/dev/null
 python3 check.py "$pid" --tier "$tier"; rc=$?
+[ -f "/tmp/evidence_$pid.keep" ] && mv "/tmp/evidence_$pid.keep" "evidence/$pid.json"
 git -C /repo checkout -- .
 echo "exit=$rc"
 exit $rc
